@@ -251,9 +251,68 @@ def nontrivial(c: Case) -> bool:
         c.obs[0] == "OInvalid" and c.obs[1][1][0] in ("TypeErr", "CoercionErr"))
 
 
+AINT = ("Scalar", ("KInt",), None, [], [], [("APred", N(2))])      # really yields to the event loop (3 suspensions)
+ASTR = ("Scalar", ("KStr",), None, [], [], [("APred", N(0))])
+
+
+def overlap_sets(rng: random.Random, tier: str):
+    """Record validators whose children suspend, and inputs with / without the optional keys: overlapping
+    async validations sharing one instance must each return what they return alone."""
+    a, b = G.S("a"), G.S("b")
+    d = lambda *kv: ("VDict", [P(k, v) for k, v in kv])
+    recs = [
+        ("ClassV", ("RkData",), N(G.C_DATA), [P(a, P(AINT, True)), P(b, P(AINT, False))], None, None, False, None),
+        ("ClassV", ("RkNamed",), N(G.C_NAMED), [P(G.S("x"), P(AINT, True)), P(G.S("y"), P(ASTR, False))], None, None, False, None),
+        ("ClassV", ("RkTyped",), N(G.C_TYPED), [P(G.S("k"), P(AINT, True)), P(G.S("o"), P(AINT, False))], None, None, True, None),
+        ("RecordV", [P(a, AINT), P(b, ("KeyNotRequired", AINT))], N(0), None, None, False),
+        ("DictAnyV", [P(a, AINT), P(b, ("KeyNotRequired", ASTR))], None, None, True),
+    ]
+    inputs = {
+        0: [d((a, G.I(2))), d((a, G.I(4)), (b, G.I(6))), d((b, G.I(3)))],
+        1: [d((G.S("x"), G.I(2))), d((G.S("x"), G.I(4)), (G.S("y"), G.S("s")))],
+        2: [d((G.S("k"), G.I(2))), d((G.S("k"), G.I(4)), (G.S("o"), G.I(6))), d((G.S("k"), G.I(1)), (G.S("z"), G.I(0)))],
+        3: [d((a, G.I(2))), d((a, G.I(4)), (b, G.I(6)))],
+        4: [d((a, G.I(2))), d((a, G.I(4)), (b, G.S("s"))), d((a, G.I(1)), (G.S("z"), G.I(0)))],
+    }
+    for i, vt in enumerate(recs):
+        for xts in itertools.permutations(inputs[i], 2):
+            yield vt, list(xts)
+        if tier != "quick":
+            for xts in itertools.product(inputs[i], repeat=3):
+                yield vt, list(xts)
+
+
 def run(tier: str, rng: random.Random, proof_ok: bool) -> dict:
-    return run_families("C04", cases(tier, rng), rng, oracle, nontrivial)
+    rep = run_families("C04", cases(tier, rng), rng, oracle, nontrivial)
+    from .C13 import check_interleavings
+    from ..lang import to_json
+    n_sets = n_sched = 0
+    seen = False
+    for vt, xts in overlap_sets(rng, tier):
+        try:
+            r, c = check_interleavings(vt, [], xts, 400 if tier == "quick" else 20000)
+        except HarnessError:
+            continue
+        n_sets += 1
+        n_sched += c
+        if r and not seen:
+            seen = True
+            rep["violations"].append({"kind": "oracle", "signature": "C04:overlapping-validations",
+                                      "what": "overlapping async validations on one record validator: " + r["what"],
+                                      "replay_case": {"v": to_json(vt), "inputs": [to_json(x) for x in xts], "interleaving": True}})
+    rep["coverage"]["overlapping_input_sets"] = n_sets
+    rep["coverage"]["schedules"] = n_sched
+    return rep
 
 
 def replay(path: str) -> int:
+    import json
+    from ..lang import from_json
+    j = json.load(open(path))
+    rc = j.get("replay_case") or {}
+    if rc.get("interleaving"):
+        from .C13 import check_interleavings
+        r, _ = check_interleavings(from_json(rc["v"]), [], [from_json(x) for x in rc["inputs"]], 100000)
+        print("property violated on these overlapping validations: " + r["what"] if r else "property holds on these overlapping validations")
+        return 1 if r else 0
     return generic_replay(path, oracle)
